@@ -28,7 +28,6 @@ def index_terms(formulas, limit=60):
     ids = set()
 
     def add(t):
-        t = z3.simplify(t)
         if t.get_id() not in ids and t.sort() == INT:
             ids.add(t.get_id())
             out.append(t)
@@ -41,7 +40,7 @@ def index_terms(formulas, limit=60):
             return
         if z3.is_app(x):
             k = x.decl().kind()
-            if k == z3.Z3_OP_SEQ_NTH:
+            if k == z3.Z3_OP_SEQ_NTH or x.decl().name() in ("seq.nth_i", "seq.nth_u"):
                 add(x.arg(1))
             elif k == z3.Z3_OP_SEQ_EXTRACT:
                 add(x.arg(1))
@@ -59,6 +58,65 @@ def index_terms(formulas, limit=60):
     for f in formulas:
         walk(f)
     return out[:limit]
+
+
+def nth_usage(formulas):
+    """seq term id -> list of index terms used with it (ground part of the query)."""
+    seen, use = set(), {}
+
+    def walk(x):
+        if x.get_id() in seen:
+            return
+        seen.add(x.get_id())
+        if z3.is_quantifier(x):
+            return
+        if z3.is_app(x) and (x.decl().kind() == z3.Z3_OP_SEQ_NTH or x.decl().name() in ("seq.nth_i", "seq.nth_u")):
+            use.setdefault(x.arg(0).get_id(), []).append(x.arg(1))
+        for c in x.children():
+            walk(c)
+    for f in formulas:
+        walk(f)
+    return use
+
+
+def seq_classes(formulas):
+    """union-find of sequence terms asserted equal at the top level of hypotheses"""
+    parent = {}
+
+    def find(a):
+        while parent.get(a, a) != a:
+            a = parent[a]
+        return a
+
+    def top(f):
+        if z3.is_app(f) and f.decl().kind() == z3.Z3_OP_AND:
+            for c in f.children():
+                top(c)
+        elif z3.is_app(f) and f.decl().kind() == z3.Z3_OP_EQ and z3.is_seq(f.arg(0)):
+            a, b = find(f.arg(0).get_id()), find(f.arg(1).get_id())
+            if a != b:
+                parent[a] = b
+    for f in formulas:
+        top(f)
+    return find
+
+
+def quant_patterns(q):
+    """sequences indexed directly by the bound variable in the body of a single-variable quantifier"""
+    pats = set()
+    seen = set()
+
+    def walk(x):
+        if x.get_id() in seen:
+            return
+        seen.add(x.get_id())
+        if z3.is_app(x) and (x.decl().kind() == z3.Z3_OP_SEQ_NTH or x.decl().name() in ("seq.nth_i", "seq.nth_u")):
+            if z3.is_var(x.arg(1)) and z3.get_var_index(x.arg(1)) == 0:
+                pats.add(x.arg(0).get_id())
+        for c in x.children():
+            walk(c)
+    walk(q.body())
+    return pats
 
 
 def subterm_ids(formulas):
@@ -88,7 +146,8 @@ def elim_quant(t, positive: bool, idx, skolems: list):
             insts = []
             if nvars != 1:
                 return t
-            for j in idx:
+            cands = idx(t) if callable(idx) else idx
+            for j in cands:
                 b = z3.substitute_vars(t.body(), j)
                 insts.append(elim_quant(b, positive, idx, skolems))
             if not insts:
@@ -125,8 +184,10 @@ def has_quant(t):
     return walk(t)
 
 
-def prepare_query(reg: Registry, hyps, goal, extra_terms=()):
-    """Return (ground hypotheses, ground goal)."""
+def prepare_query(reg: Registry, hyps, goal, extra_terms=(), level=0):
+    """Return (ground hypotheses, ground goal).  level 0: quantified hypotheses, map/split facts and fold
+    definitions are instantiated; level 1 additionally instantiates the character-class run facts
+    (forall-parts of lead/trail/has) at the index terms."""
     hy = [h for _, h in hyps]
     # 1. skolemise the goal (negated goal is asserted)
     sk = []
@@ -136,20 +197,44 @@ def prepare_query(reg: Registry, hyps, goal, extra_terms=()):
         # (forall in the goal becomes a skolem constant; an exists in the goal would need instances: handled below)
     idx = index_terms(hy + [g]) + list(sk) + list(extra_terms)
     idx += [ival(0)]
+    usage = nth_usage([h for h in hy if not has_quant(h)] + [g])
+    find = seq_classes(hy)
+    by_class = {}
+    for sid, terms in usage.items():
+        by_class.setdefault(find(sid), []).extend(terms)
+
+    def select(q):
+        """E-matching-lite: instantiate a quantifier at the index terms used with the sequences its body indexes."""
+        pats = quant_patterns(q)
+        if not pats:
+            return idx
+        out, ids = [], set()
+        for p in pats:
+            for t in by_class.get(find(p), []):
+                if t.get_id() not in ids:
+                    ids.add(t.get_id())
+                    out.append(t)
+        for t in list(sk) + list(extra_terms):
+            if t.sort() == INT and t.get_id() not in ids:
+                ids.add(t.get_id())
+                out.append(t)
+        return out
     # 2. instantiate quantified hypotheses and registered facts, two rounds
     ground = []
     for h in hy:
         if has_quant(h):
-            ground.append(elim_quant(h, True, idx, sk))
+            ground.append(elim_quant(h, True, select, sk))
         else:
             ground.append(h)
     if has_quant(g):
-        g = z3.Not(elim_quant(z3.Not(g), True, idx, sk))
+        g = z3.Not(elim_quant(z3.Not(g), True, select, sk))
     ids = subterm_ids(ground + [g])
     facts = []
     for rnd in range(2):
         new = []
         for qf in reg.qfacts:
+            if level == 0 and type(qf).__name__.startswith("RunFact"):
+                continue
             anchor = getattr(qf, "mt", None)
             if anchor is None:
                 anchor = getattr(qf, "items", None)
@@ -157,7 +242,19 @@ def prepare_query(reg: Registry, hyps, goal, extra_terms=()):
                 anchor = qf.s
             if anchor.get_id() not in ids:
                 continue
-            for j in idx:
+            cands = idx
+            if type(qf).__name__ == "MapFact":
+                cands, cids = [], set()
+                for sid in (qf.mt.get_id(), qf.seq.get_id()):
+                    for t in by_class.get(find(sid), []) + usage.get(sid, []):
+                        if t.get_id() not in cids:
+                            cids.add(t.get_id())
+                            cands.append(t)
+                for t in sk:
+                    if t.sort() == INT and t.get_id() not in cids:
+                        cids.add(t.get_id())
+                        cands.append(t)
+            for j in cands:
                 new.append(qf.instance(j))
         facts = new
         if rnd == 0:
@@ -167,6 +264,8 @@ def prepare_query(reg: Registry, hyps, goal, extra_terms=()):
             if not add:
                 break
             idx = idx + add[:40]
+    # 2b. structural lemmas: nth over concat / unit / extract, for the nth terms of the query
+    facts = facts + seq_lemmas(ground + facts + [g])
     # 3. unfold fold definitions at their applications (two rounds)
     unf = []
     if reg.fold_defs:
@@ -188,6 +287,49 @@ def prepare_query(reg: Registry, hyps, goal, extra_terms=()):
 
 
 FOLD_UNFOLD_ROUNDS = 3
+QUICK_ATTEMPT_MS = int(os.environ.get('PYVC_QUICK_MS', '10000'))
+
+
+def seq_lemmas(formulas):
+    """nth(concat(a, b..), k) / nth(unit(c), 0) / nth(extract(s, a, l), k): valid facts of the theory of sequences
+    that the solvers do not derive reliably on their own (measured, DESIGN 3.4)."""
+    seen, out, done = set(), [], set()
+
+    def lemma_for(base, k):
+        if not z3.is_app(base):
+            return
+        kind = base.decl().kind()
+        key = (base.get_id(), k.get_id())
+        if key in done:
+            return
+        done.add(key)
+        if kind == z3.Z3_OP_SEQ_CONCAT:
+            parts = base.children()
+            off = ival(0)
+            for p in parts:
+                ln = z3.Length(p)
+                out.append(z3.Implies(z3.And(k >= off, k < off + ln), base[k] == p[k - off]))
+                lemma_for(p, z3.simplify(k - off))
+                off = off + ln
+        elif kind == z3.Z3_OP_SEQ_UNIT:
+            out.append(z3.Implies(k == 0, base[k] == base.arg(0)))
+        elif kind == z3.Z3_OP_SEQ_EXTRACT:
+            s0, a, l = base.arg(0), base.arg(1), base.arg(2)
+            out.append(z3.Implies(z3.And(k >= 0, k < z3.Length(base), a >= 0), base[k] == s0[a + k]))
+
+    def walk(x):
+        if x.get_id() in seen:
+            return
+        seen.add(x.get_id())
+        if z3.is_quantifier(x):
+            return
+        if z3.is_app(x) and (x.decl().kind() == z3.Z3_OP_SEQ_NTH or x.decl().name() in ("seq.nth_i", "seq.nth_u")):
+            lemma_for(x.arg(0), x.arg(1))
+        for c in x.children():
+            walk(c)
+    for f in formulas:
+        walk(f)
+    return out
 
 
 def fold_apps(reg, formulas):
@@ -244,7 +386,7 @@ class FunctionVerifier:
             tx = types.get(p)
             if tx is None:
                 ann = next(a.annotation for a in fnode.args.args if a.arg == p)
-                ty = self.reg.type_from_annotation(ann)
+                ty = self.reg.type_from_annotation(ann, self.fi.module)
                 if ty is None:
                     raise EngineUnsupported(f"parameter {p} of {self.qual} has no declared type")
             else:
@@ -432,14 +574,76 @@ def discharge(reg: Registry, ob: Obligation, both=False):
     g = z3.simplify(ob.goal)
     if z3.is_true(g):
         return {"name": ob.name, "result": "proved", "backend": "ground", "time_s": 0.0, "cached": False}
-    try:
-        hyps, goal = prepare_query(reg, ob.hyps, ob.goal)
-    except Exception as e:  # pragma: no cover
-        return {"name": ob.name, "result": "unknown", "backend": "none", "reason": "prepare: " + str(e), "time_s": 0.0}
-    r = solve.check(hyps, goal, both=both)
+    r = None
+    attempts = [(False, 0, "direct"), (True, 0, "extensionality"), (False, 1, "class-run facts"),
+                (True, 1, "extensionality+class-run facts")]
+    eg = ext_goal(ob.goal)
+    if eg is not None:      # a sequence equality is (almost) never provable without extensionality: try that first
+        attempts = [(True, 0, "extensionality"), (False, 0, "direct"), (True, 1, "extensionality+class-run facts"),
+                    (False, 1, "class-run facts")]
+    tried = []
+    prepared = {}
+    for use_ext, level, label in attempts:
+        if use_ext and eg is None:
+            continue
+        g0 = eg if use_ext else ob.goal
+        try:
+            hyps, goal = prepare_query(reg, ob.hyps, g0, level=level)
+        except Exception as e:  # pragma: no cover
+            tried.append(f"{label}: prepare failed {e!r}")
+            continue
+        prepared[label] = (hyps, goal)
+        r2 = solve.check(hyps, goal, both=both, timeout_ms=QUICK_ATTEMPT_MS, use_cvc5=both)
+        tried.append(f"{label}: {r2['result']} {r2['time_s']}s")
+        if r2["result"] == "proved":
+            r = r2
+            r["tactic"] = label
+            break
+        if r is None or (r["result"] == "unknown" and r2["result"] == "refuted"):
+            r = r2
+            r["tactic"] = label
+    if r is not None and r["result"] == "unknown" and prepared:
+        # nothing decided within the quick budget: full budget on every prepared form, cvc5 for z3's unknowns
+        for label, (hyps, goal) in prepared.items():
+            r2 = solve.check(hyps, goal, both=both)
+            tried.append(f"{label}(full): {r2['result']} {r2['time_s']}s")
+            if r2["result"] in ("proved", "refuted"):
+                r = r2
+                r["tactic"] = label
+                if r2["result"] == "proved":
+                    break
+    if r is None:
+        r = {"result": "unknown", "backend": "none", "reason": "; ".join(tried), "time_s": 0.0}
+    r["attempts"] = tried
     r["name"] = ob.name
     r["total_s"] = round(time.time() - t0, 3)
     return r
+
+
+def ext_goal(goal):
+    """Sequence extensionality: a == b  is implied by  len(a) == len(b) and a[k] == b[k] for a fresh k in range.
+    Applied to every sequence equality that occurs positively as a conjunct (or consequent) of the goal."""
+    changed = [False]
+
+    def tr(t):
+        if z3.is_app(t) and t.sort() == BOOL:
+            k = t.decl().kind()
+            if k == z3.Z3_OP_AND:
+                return z3.And(*[tr(c) for c in t.children()])
+            if k == z3.Z3_OP_IMPLIES:
+                return z3.Implies(t.arg(0), tr(t.arg(1)))
+            if k == z3.Z3_OP_OR:
+                cs = t.children()
+                return z3.Or(*[tr(c) for c in cs])
+            if k == z3.Z3_OP_EQ and z3.is_seq(t.arg(0)) and t.arg(0).sort() != STR:
+                a, b = t.arg(0), t.arg(1)
+                kk = fresh(INT, "ext_k")
+                changed[0] = True
+                return z3.And(z3.Length(a) == z3.Length(b),
+                              z3.ForAll([kk], z3.Implies(z3.And(kk >= 0, kk < z3.Length(a)), a[kk] == b[kk])))
+        return t
+    g = tr(goal)
+    return g if changed[0] else None
 
 
 def verify_function(prog: Program, reg: Registry, qualname: str, only_serves=None, both=False):
